@@ -69,6 +69,22 @@ func verifLogCase(w *bufio.Writer, tmp string, caseNo int, kind int, days []vlDa
 	fmt.Fprint(w, " =")
 	f := NewFileIO(root, nil, nil, false)
 	pathOf := func(off int) string { return f.logger.getPath(midnight.Add(time.Duration(off) * 24 * time.Hour).Add(12 * time.Hour)) }
+	at0 := func(off, sec int64) time.Time { return midnight.Add(time.Duration(off*86400+sec) * time.Second) }
+	// in every other case the same look-ups (and a replay) are made first, before anything is
+	// written, on the same log object: the sender asks about a file before it logs it
+	var early []bool
+	if caseNo%2 == 1 {
+		for _, q := range qs {
+			if kind == 0 {
+				early = append(early, f.WasReceived(q.name, q.hash, at0(q.aoff, q.asec), at0(q.boff, q.bsec)))
+			} else {
+				early = append(early, f.WasSent(q.name, q.hash, at0(q.aoff, q.asec), at0(q.boff, q.bsec)))
+			}
+		}
+		if kind == 0 {
+			f.Parse(func(string, string, string, int64, time.Time) bool { return false }, at0(-3, 10), at0(0, 86000))
+		}
+	}
 	for _, d := range days {
 		for i := range d.recs {
 			if kind == 0 {
@@ -132,6 +148,16 @@ func verifLogCase(w *bufio.Writer, tmp string, caseNo int, kind int, days []vlDa
 	fmt.Fprintf(w, " %d", len(ps))
 	for _, p := range ps {
 		fmt.Fprintf(w, " %s %s %s %d %d", gen.Hex(p.n), gen.Hex(p.r), gen.Hex(p.h), p.s, p.t)
+	}
+	if early != nil {
+		fmt.Fprintf(w, " P %d", len(early))
+		for _, a := range early {
+			if a {
+				fmt.Fprint(w, " 1")
+			} else {
+				fmt.Fprint(w, " 0")
+			}
+		}
 	}
 	fmt.Fprintln(w)
 	f.logger.close()
@@ -225,7 +251,7 @@ func TestVerifLog(t *testing.T) {
 			for k := 0; k < nq; k++ {
 				qs = append(qs, vlQuery{name: str(), hash: str(), aoff: num(), asec: num(), boff: num(), bsec: num()})
 			}
-			verifLogCase(w, tmp, c, kind, days, qs)
+			verifLogCase(w, tmp, 2*c+1, kind, days, qs) // replays always make the early look-ups too
 		}
 		return
 	}
